@@ -69,7 +69,8 @@ def step (s : St) : Op → St
     else s
   | .batchIng keys => { s with conf := keys.foldl (fun m k => m.erase (ingFileKey k)) s.conf }
   | .batchVs keys => { s with conf := keys.foldl (fun m k => m.erase (vsFileKey k)) s.conf }
-  | .restart => { s with pairs := [] }      -- the process state is gone, the volume survived
+  -- the process state is gone, the volume survived; start-up (cmd/nginx-ingress/main.go) writes the passthrough hosts map empty
+  | .restart => { s with pairs := [], ptFile := some [] }
 
 def run (s : St) (ops : List Op) : St := ops.foldl step s
 
